@@ -16,10 +16,10 @@ Section C06.
   (* through any chain of re-exports that keeps the local name - of any length - the resolver reaches the
      defining module's function or class *)
   Theorem C06_resolver_follows_reexport_chains :
-    forall irs tn tq mn ln c,
-      chain module_of blacklisted in_pip in_stdlib follow_pip follow_stdlib irs tn tq mn ln c ->
+    forall irs vis tn tq mn ln c,
+      chain module_of blacklisted in_pip in_stdlib follow_pip follow_stdlib irs vis tn tq mn ln c ->
       exists n, forall fuel, n <= fuel ->
-        resolve_import module_of blacklisted in_pip in_stdlib true follow_pip follow_stdlib fuel irs tn tq = RTarget mn ln c.
+        resolve_import module_of blacklisted in_pip in_stdlib true follow_pip follow_stdlib fuel irs vis tn tq = RTarget mn ln c.
   Proof. intros. eapply resolve_follows_chain; [reflexivity|eassumption]. Qed.
 
   (* and an imported call then expands exactly like a local call to that definition: same entry, same call
@@ -27,7 +27,7 @@ Section C06.
   Theorem C06_imported_call_expands_like_local_call :
     forall fl fuel irs owner excluded E c nm q mn ln,
       c_target c = Some (mkSym nm (KImport q)) ->
-      resolve_import module_of blacklisted in_pip in_stdlib fl follow_pip follow_stdlib fuel irs nm q = RTarget mn ln false ->
+      resolve_import module_of blacklisted in_pip in_stdlib fl follow_pip follow_stdlib fuel irs [] nm q = RTarget mn ln false ->
       resolve excluded E (link_call module_of blacklisted in_pip in_stdlib fl follow_pip follow_stdlib fuel irs owner c)
       = resolve excluded E (mkCallRec (c_name c) (c_args c) (c_kw c) (Some (mkSym (qid mn ln) KFunc))).
   Proof. intros. eapply link_import_like_local; eassumption. Qed.
@@ -36,24 +36,33 @@ Section C06.
   Theorem C06_unresolved_import_contributes_nothing :
     forall fl fuel irs owner excluded E c nm q,
       c_target c = Some (mkSym nm (KImport q)) ->
-      (forall mn ln k, resolve_import module_of blacklisted in_pip in_stdlib fl follow_pip follow_stdlib fuel irs nm q <> RTarget mn ln k) ->
+      (forall mn ln k, resolve_import module_of blacklisted in_pip in_stdlib fl follow_pip follow_stdlib fuel irs [] nm q <> RTarget mn ln k) ->
       resolve excluded E (link_call module_of blacklisted in_pip in_stdlib fl follow_pip follow_stdlib fuel irs owner c) = None.
   Proof. intros. eapply link_unresolved_contributes_nothing; eassumption. Qed.
 End C06.
 Print Assumptions C06_resolver_follows_reexport_chains.
 Print Assumptions C06_imported_call_expands_like_local_call.
 
-Example C06_chain_of_two : resolve_import ex_locator no no no true false false 5 ch "f" "a.f" = RTarget "m" "f" false.
+Example C06_chain_of_two : resolve_import ex_locator no no no true false false 5 ch [] "f" "a.f" = RTarget "m" "f" false.
 Proof. exact chain_example. Qed.
 
 (* REFUTED on the faithful model:
    - `from m import f as g` : the definition is looked up under the alias (finding KF_C06_1) *)
 Theorem C06_aliased_from_import_refuted :
-  resolve_import ex_locator no no no true false false 3 [ex_m] "f" "m.f" = RTarget "m" "f" false
-  /\ resolve_import ex_locator no no no true false false 3 [ex_m] "g" "m.f" = RNone.
+  resolve_import ex_locator no no no true false false 3 [ex_m] [] "f" "m.f" = RTarget "m" "f" false
+  /\ resolve_import ex_locator no no no true false false 3 [ex_m] [] "g" "m.f" = RNone.
 Proof. split; [exact plain_from_import_resolves|exact aliased_from_import_refuted]. Qed.
-(* - a re-export cycle does not terminate, whatever the fuel (finding KF_C06_4) *)
-Theorem C06_reexport_cycle_refuted :
-  forall fuel, resolve_import ex_locator no no no true false false fuel cyc "f" "a.f" = RFuel.
-Proof. exact reexport_cycle_refuted. Qed.
-Print Assumptions C06_reexport_cycle_refuted.
+
+(* import cycles terminate: a name re-exported in a cycle is cut at its second visit, and the resolver never
+   runs out of fuel in any environment (after fix 99a8b20; before it the model ran out of every fuel and rattr
+   ended in RecursionError) *)
+Theorem C06_reexport_cycle_terminates :
+  forall fuel, 3 <= fuel -> resolve_import ex_locator no no no true false false fuel cyc [] "f" "a.f" = RNone.
+Proof. exact reexport_cycle_terminates. Qed.
+Theorem C06_resolver_always_terminates :
+  forall module_of blacklisted in_pip in_stdlib follow_local follow_pip follow_stdlib irs (Q : list string),
+    (forall m ln n q, In m irs -> clookup (m_ctx m) ln = Some (MImport n q) -> In q Q) ->
+    forall fuel vis tn tq, In tq Q -> unvisited Q vis + 1 <= fuel ->
+      resolve_import module_of blacklisted in_pip in_stdlib follow_local follow_pip follow_stdlib fuel irs vis tn tq <> RFuel.
+Proof. intros. eapply resolve_never_out_of_fuel; eassumption. Qed.
+Print Assumptions C06_resolver_always_terminates.
